@@ -1263,7 +1263,7 @@ func init() {
 	props["C07"] = func(x *Ctx) {
 		x.rule = "hostile byte strings (.., ., /, empty, absolute paths into the sandbox, NUL, 128..255-byte names, Mac-Roman high bytes incl. 0xDA fraction slash and 0xC9 ellipsis, '../Files.incomplete', '../.rsrc_Files', '..'+root name, compositions of ../ and canary names, existing names) in every path-bearing field (file path items with correct and lying length prefixes / counts, file name, new name, new path, folder-upload item segments, account logins) of all 11 file handlers, the folder-upload / file-upload / download transfer entry point and account create / rename / delete; the sandbox holds the root plus canary siblings (Files.incomplete, .rsrc_Files, .info_Files, outside.txt, Sibling/, Files2/, x.yaml, victim.yaml, one level up: outside.txt, x.yaml, Files/); after EVERY request the recursive snapshot outside the root (accounts dir) must be unchanged and no canary content may appear in replies / transfer bytes. non-trivial = a request that reached the handler with a path-bearing field set (counted per distinct field bytes) / a transfer that was registered and run"
 		x.assume = []string{
-			"the configured file root and accounts directory are clean absolute ASCII paths that exist",
+			"the configured file root and accounts directory are absolute ASCII paths that exist (four spellings of the root are exercised: clean, trailing slash, per-account root with /./ or //)",
 			"no symlink inside the root points outside it when the server starts (the model proves aliases created by the server point inside)",
 			"symlinks in intermediate path components are resolved by the OS, not by the model (lexical containment + the invariant above)",
 		}
